@@ -192,6 +192,10 @@ fn write_values(mem: &mut [W], addr: usize, values: &[Vec<W>]) -> RRes<()> {
     // [a_addr, a_len, b_addr, b_len, a_value, b_value]
     let n = values.len();
     let total: usize = 2 * n + values.iter().map(|v| v.len()).sum::<usize>();
+    if total == 0 {
+        // nothing is written: trivially fits, whatever the address
+        return Ok(());
+    }
     let end = addr.checked_add(total).ok_or(RErr::Fail)?;
     if end > mem.len() {
         return Err(RErr::Fail);
